@@ -39,13 +39,24 @@ def labels(cat: dict) -> list[str]:
 def build_raw(cat: dict, dialect: str = "oas30") -> dict:
     """Document of the universe in the given dialect (OpenAPI 3.0 / 3.1 / Swagger 2.0): /u and /u/{id} are shared path items
     (several methods, path-level parameters), /s1 and /s2 reach one path item through the same $ref, `PUT` in upper case is not
-    an operation of the document; links are written inline, as a $ref to a reusable link, or inside a $ref'd response."""
+    an operation of the document; links are written inline, as a $ref to a reusable link, or inside a $ref'd response; an
+    operation's own query parameters (`params`) are written in place or as a $ref to a reusable parameter object."""
     ops = cat["ops"]
     v2 = dialect == "swagger20"
     links_key = "x-links" if v2 else "links"
     body_schema = {"type": "object", "properties": {"n": {"type": "integer"}}, "required": ["n"], "additionalProperties": False}
     shared_links: dict = {}
     shared_responses: dict = {}
+    shared_params: dict = {}
+
+    def parameter(par: dict) -> dict:
+        name = text(par["name"])
+        typ = {"type": "boolean" if name == "force" else "integer"}
+        obj = dict({"name": name, "in": "query"}, **(typ if v2 else {"schema": typ}))
+        if par["via"] == "ref":
+            shared_params[name.capitalize()] = obj
+            return {"$ref": ("#/parameters/%s" if v2 else "#/components/parameters/%s") % name.capitalize()}
+        return obj
 
     def definition(i: int) -> dict:
         op = ops[i]
@@ -56,9 +67,11 @@ def build_raw(cat: dict, dialect: str = "oas30") -> dict:
             d["operationId"] = text(op["opid"])
         if op["depr"] != "absent":
             d["deprecated"] = op["depr"] == "true"
+        if op.get("params"):
+            d["parameters"] = [parameter(par) for par in op["params"]]
         if text(op["method"]) in ("post", "patch"):
             if v2:
-                d["parameters"] = [{"name": "payload", "in": "body", "required": True, "schema": body_schema}]
+                d.setdefault("parameters", []).append({"name": "payload", "in": "body", "required": True, "schema": body_schema})
                 d["consumes"] = ["application/json"]
             else:
                 d["requestBody"] = {"required": True, "content": {"application/json": {"schema": body_schema}}}
@@ -106,9 +119,10 @@ def build_raw(cat: dict, dialect: str = "oas30") -> dict:
     info = {"title": "c07", "version": "1"}
     if v2:
         return {"swagger": "2.0", "info": info, "basePath": "/", "paths": paths, "x-path-items": {"Shared": shared},
-                "x-link-defs": shared_links, "responses": shared_responses}
+                "x-link-defs": shared_links, "responses": shared_responses, "parameters": shared_params}
     return {"openapi": "3.1.0" if dialect == "oas31" else "3.0.2", "info": info, "paths": paths,
-            "components": {"x-path-items": {"Shared": shared}, "links": shared_links, "responses": shared_responses}}
+            "components": {"x-path-items": {"Shared": shared}, "links": shared_links, "responses": shared_responses,
+                           "parameters": shared_params}}
 
 
 def regex_of(how: str, lit: str) -> str:
@@ -383,6 +397,15 @@ def _responsible(case: dict, cat: dict, o: int, direction: str) -> str:
     return "+".join(sorted({"fixture-filters" if p else "%s[%s]" % (side, _kind(cat["filters"][f - 1])) for side, p, f in resp})) or "none"
 
 
+def _through_ref(case: dict, cat: dict) -> bool:
+    """Feature of the element (from the spec's ThroughRef table): some filter's verdict is read across a $ref inside an operation."""
+    table = cat.get("throughref")
+    if not table:
+        return False
+    b = cat["bases"][case["base"] - 1] if case["door"] == "lazy" else {"incl": [], "excl": []}
+    return any(any(table[f - 1]) for f in case["incl"] + case["excl"] + b["incl"] + b["excl"])
+
+
 def signatures(case: dict, obs: dict, cat: dict) -> dict[str, tuple[str, int, str]]:
     """One signature per independent finding of the element: a selection that is wrong at the operation iterator is attributed to
     the front door / matcher ("selection"); another site is reported on its own only where it diverges from the iterator too."""
@@ -403,6 +426,10 @@ def signatures(case: dict, obs: dict, cat: dict) -> dict[str, tuple[str, int, st
                     1 for l in cat["links"] if it[l["src"] - 1] and it[l["tgt"] - 1]):
                 continue
             sig = "C07:%s:%s:%s" % (case["door"], site, kind)
+            if not iter_cells and _through_ref(case, cat):
+                # the selection is right, the reported counts are not, and a filter of the element reads a part of the operation
+                # that the document writes as a $ref: one class whatever the door and whichever count is off
+                sig = "C07:statistic:filter-reads-through-ref"
         elif site in ("engine", "cli-run", "pytest", "lazy-pytest"):
             # the selection itself is right (iterator agrees with the spec) but this site diverges: a defect of the site, whatever
             # the filter kind; what matters is whether a sibling operation of the same path item is selected
@@ -594,7 +621,8 @@ def _chain_src(cat: dict, calls: list[tuple[str, int]], rx: str = "text") -> str
     src = ""
     for mode, f in calls:
         kw = py_call(cat["filters"][f - 1], rx)
-        src += ".%s(**%r)" % (mode, kw)  # a compiled pattern prints as re.compile('...')
+        e = kw.pop("__expr__", None)  # python API: the condition is a custom function reading the resolved definition
+        src += ".%s(%s**%r)" % (mode, "EXPR(%r), " % e if e is not None else "", kw)  # a compiled pattern prints as re.compile('...')
     return src
 
 
@@ -610,6 +638,7 @@ def run_pytest_sample(ctx: Ctx, cat: dict, sample: list[dict]) -> dict[int, dict
     lines = [
         "import json, os, re, pytest, schemathesis",
         "from hypothesis import settings, HealthCheck",
+        "from schemathesis.filters import expression_to_filter_function as EXPR",
         "import rec_c07",
         "RAW = {d: json.load(open(os.path.join(os.path.dirname(__file__), 'raw_%s.json' % d))) for d in ('oas30', 'oas31', 'swagger20')}",
         "SET = settings(max_examples=1, deadline=None, database=None, suppress_health_check=list(HealthCheck))",
@@ -1026,6 +1055,10 @@ def run(ctx: Ctx) -> Outcome:
         "the universe is serialised by the harness in three dialects (OpenAPI 3.0.2, 3.1.0, Swagger 2.0 with x-links); the spec assigns "
         "dialect and regex form (text / compiled) to every element",
         "derivation histories: nodes are observed once, after all derivations, at get_all_operations() and statistic",
+        "operations carry their own query parameters, written in place or as a $ref to a reusable parameter object; the expression "
+        "filters /parameters/<k>/name == \"force\" are given as --include-by/--exclude-by on the command line and as custom functions "
+        "(reading ctx.operation.definition.resolved) to include()/exclude() through the python and lazy doors; the expected verdict does "
+        "not depend on how the parameter is written",
     ]
     return out
 
